@@ -955,6 +955,7 @@ def getAttr (name : String) : V → Outcome V
     match as.lookup name with
     | some v => .ok v
     | none => .err
+  | .set _ => .unspec       -- deprecated: `.` on a singleton set reaches into its only member
   | _ => .err
 
 /-- a tuple with a sugar heading whose `@` (or `@char`/`@byte`) is not a number: `NewTuple` panics
